@@ -9,6 +9,7 @@ From TK Require Import QuadTree_Model QuadTree_Spec QuadTree_SpecExec QuadTree_P
                        QuadTree_Proof_Insert QuadTree_Proof_Main QuadTree_Proof_Forces
                        QuadTree_Proof_Fuel QuadTree_Proof_Spec QuadTree_Proof_Exec
                        QuadTree_Proof_Observers QuadTree_Proof_Order QuadTree_Proof_Order2 QuadTree_Proof_Bound
+                       QuadTree_Proof_Gradient
                        QuadTree_Proof_Final QuadTree_Proof_Sqrt.
 Import ListNotations.
 Local Open Scope Q_scope.
@@ -209,6 +210,29 @@ Theorem leaf_count_is_mass : forall fuel data order root ok t,
   fill_order true fuel data order (init root) = Done ok t -> count_ok t.
 Proof. exact count_ok_final. Qed.
 Print Assumptions leaf_count_is_mass.
+
+(* 6e. tsne.hpp (computeGradient / evaluateError): `for n: tree->computeNonEdgeForces(n, theta, neg_f + n*D, &sum_Q)`
+       with neg_f zeroed and ONE running sum_Q (nonedge_loop).  theta = 0, no coincident points: every row is the exact
+       all-pairs force on that point and the final sum_Q is the start value plus the sum of q_ij over all rows
+       (total_sq); for 8 theta^2 <= 1 the final sum_Q stays within (9 theta + 8 theta^2) * total_sq of that. *)
+Theorem nonedge_loop_theta0 : forall fx fuel data order root ok t,
+  in_root data root order -> NoCo data order ->
+  fill_order fx fuel data order (init root) = Done ok t ->
+  forall ns sq, (forall n, In n ns -> (n < length data)%nat) ->
+    exists l s, nonedge_loop data 0 t ns sq = Some (l, s) /\
+                rows_ok data order ns l /\ s == sq + total_sq data order ns.
+Proof. exact nonedge_loop_theta0_final. Qed.
+Print Assumptions nonedge_loop_theta0.
+Theorem nonedge_loop_bound : forall fx fuel data order root ok t,
+  in_root data root order -> NoCo data order ->
+  fill_order fx fuel data order (init root) = Done ok t ->
+  forall theta, 0 <= theta -> 8 * (theta * theta) <= 1 ->
+  forall ns sq, (forall n, In n ns -> (n < length data)%nat) ->
+    exists l s, nonedge_loop data theta t ns sq = Some (l, s) /\ length l = length ns /\
+                -(epsf theta * total_sq data order ns) <= s - (sq + total_sq data order ns) /\
+                s - (sq + total_sq data order ns) <= epsf theta * total_sq data order ns.
+Proof. exact nonedge_loop_bound_final. Qed.
+Print Assumptions nonedge_loop_bound.
 
 (* 7. points on a grid of step g in a root box of half-size <= 2^d g: fuel d + 3 suffices, i.e. the
       recursion of insert() is at most that deep and the run is never `OutOfFuel` *)
